@@ -342,8 +342,12 @@ func encodeTagAndMembershipList(msgType msgType, tag tag, peers []uint16) []byte
 }
 
 func decodeTagAndMembershipList(msg []byte) (msgType, tag, []uint16, error) {
-	if len(msg) < 32 {
+	if len(msg) < 33 {
 		return 0, "", nil, fmt.Errorf("message too small (%d bytes), should be 32 bytes", len(msg))
+	}
+
+	if (len(msg)-33)%2 != 0 {
+		return 0, "", nil, fmt.Errorf("membership list of %d bytes is not a sequence of 16-bit identifiers", len(msg)-33)
 	}
 
 	msgType := msgType(msg[0])
